@@ -1,22 +1,32 @@
-"""Per-property part table for vcheck (see DESIGN.md §2, §4)."""
+"""Per-property part table for vcheck (see DESIGN.md §2, §4).
 
-ASSUME_SAMPLED = "universality over inputs is sampled (boundary-biased PRNG generators plus small exhaustive sub-spaces), not proved"
-ASSUME_SCHED = "schedules are those produced by the workloads, jitter and verif hooks on this machine; others are unexplored"
-ASSUME_RACE = "built with the Go race detector (implies checkptr); it reports only races on executed interleavings"
+Each property's spec lives in checkspecs/<id>.json:
+  level, level_text, level_note, technique, assumptions[], race_decides?,
+  parts[]: {name, engine: api|inpkg, pkg, run, srcdir?, files?, shards?,
+            shards_quick?, shards_thorough?, watchdog?, watchdog_thorough?,
+            binaries?[], tiers?[]}
+"""
+import glob
+import json
+import os
 
+HERE = os.path.dirname(os.path.abspath(__file__))
+
+# commits in /repo that add the `verif`-guarded hooks (recorded in MANIFEST.hooks)
 HOOK_COMMITS = []
+try:
+    HOOK_COMMITS = [l.split()[0] for l in open(os.path.join(HERE, "hook_commits.txt")) if l.strip() and not l.startswith("#")]
+except OSError:
+    pass
 
+# reasons for properties not claimed (property_id -> reason)
 NOT_CLAIMED = {}
+try:
+    NOT_CLAIMED = json.load(open(os.path.join(HERE, "not_claimed.json")))
+except OSError:
+    pass
 
-CHECKS = {
-    "C09": {
-        "level": "exploration",
-        "level_text": "Runtime monitor: the real ReadData/WriteData/WritePadding/MaxDataForSize run on tens of thousands of PRNG and enumerated streams (all prefix-size boundaries, non-minimal prefixes, every truncation point of short streams, arbitrary bytes) through nine io.Reader behaviours (short, one-byte, zero-length reads, data+EOF, io.Pipe with empty messages) and are compared with an independent reference decoder; panics and allocation are monitored. Held = no divergence on the executions observed.",
-        "level_note": "Trusted: the 40-line reference decoder written from the package comment; the Go runtime. Inputs are sampled, not exhaustive (except padding sizes <= 5000, budgets <= 20000, truncation points of the short streams).",
-        "technique": "runtime monitoring: reference-model oracle + panic/alloc monitors over hostile io.Reader behaviours, under -race/checkptr",
-        "assumptions": [ASSUME_SAMPLED, "the reference decoder in the harness (40 lines, written from the package comment) is the specification"],
-        "parts": [
-            {"name": "api-c09", "engine": "api", "pkg": "c09", "run": "^TestVerifC09$", "watchdog": 900, "watchdog_thorough": 3600},
-        ],
-    },
-}
+CHECKS = {}
+for _p in sorted(glob.glob(os.path.join(HERE, "checkspecs", "C*.json"))):
+    _id = os.path.basename(_p)[:-5]
+    CHECKS[_id] = json.load(open(_p))
